@@ -222,6 +222,21 @@ func (fr *Frame) canInlineStatic(fn *ssa.Function, fc *FuncContract) bool {
 // scanContract adds the heaps named by a contract's modifies clause (evaluated on fresh
 // symbolic arguments, only the heap names are used).
 func (fr *Frame) scanContract(w *writeSet, fc *FuncContract, sig *types.Signature, invoke bool) {
+	// ghost attribute marks made by the callee's ensures clauses are writes to the attribute heap
+	for _, e := range fc.Ensures {
+		for _, p := range SplitConj(e.E) {
+			if b, ok := p.(*EBin); ok && b.Op == "==>" {
+				p = b.Y
+			}
+			if _, ok := attrCall(p); ok {
+				call := p
+				if u, ok := p.(*EUn); ok {
+					call = u.X
+				}
+				w.heaps["R:"+call.(*ECall).Args[0].(*EIdent).Name] = ArrSort(SInt, SBool)
+			}
+		}
+	}
 	if !fc.HasMod {
 		w.all = true
 		return
